@@ -1,6 +1,7 @@
 (* C09  Cleanup runs exactly once per ending, always settles (machine level).  Statements only. *)
 From Coq Require Import List NArith ZArith String Bool.
 From DT Require Import GenStatus GenEvent GenMsgType FsmTypes GenFsm Fsm Machine View Msg Transport FsmFacts MachineFacts C09Proofs C16Proofs.
+From DT Require Node C09Reject.
 Import ListNotations.
 
 (* the cleanup entry function releases the transport channel once, un-protects the other party
@@ -89,3 +90,40 @@ Theorem C09_cancel_fail_not_diverted :
     forallb (fun e => negb (starts_handler e s)) es = true.
 Proof. exact cancel_fail_not_diverted. Qed.
 Print Assumptions C09_cancel_fail_not_diverted.
+
+(* closing on a rejected request (node level, handler programs of Node.v).  The reply to a new or
+   restart request says "accepted" exactly when the signal handed back lets the carrier go on
+   (ok, or stay paused); a request that was not accepted -- whatever ForcePause / data limit / the
+   finalization flag of the validator's answer say -- is signalled as rejected or failed ... *)
+Theorem C09_unaccepted_new_request_is_signalled_rejected :
+  forall k m s,
+    let '(x, s') := Node.run (Node.receive_new_request k m) s in
+    match fst x with
+    | None => False
+    | Some r =>
+        (g_accepted r = false -> snd x = Node.ROther \/ snd x = Node.RRejected) /\
+        (snd x = Node.ROk \/ snd x = Node.RPause -> g_accepted r = true)
+    end.
+Proof. exact C09Reject.new_request_signal. Qed.
+Print Assumptions C09_unaccepted_new_request_is_signalled_rejected.
+
+Theorem C09_unaccepted_restart_request_is_signalled_rejected :
+  forall k m s,
+    let '(x, s') := Node.run (Node.receive_restart_request k m) s in
+    match fst x with
+    | None => False
+    | Some r =>
+        (g_accepted r = false -> snd x = Node.ROther \/ snd x = Node.RRejected) /\
+        (snd x = Node.ROk \/ snd x = Node.RPause -> g_accepted r = true)
+    end.
+Proof. exact C09Reject.restart_request_signal. Qed.
+Print Assumptions C09_unaccepted_restart_request_is_signalled_rejected.
+
+(* ... and on that signal the receiver, once the reply went out, closes the transport channel and
+   does nothing else (receiver.receiveRequest is exactly the program of C09Reject.recv_request_unfold,
+   whose tail is after_reply) *)
+Theorem C09_rejected_request_closes_transport :
+  forall k e, (e = Node.RRejected \/ e = Node.ROther) ->
+    C09Reject.after_reply k e = Node.bind (Node.exec (Node.ITransport (Node.TClose k))) (fun _ => Node.Ret e).
+Proof. exact C09Reject.rejected_request_closes_transport. Qed.
+Print Assumptions C09_rejected_request_closes_transport.
